@@ -15,7 +15,9 @@ CONFIG = {
     ],
     "mult_search": 3,
     "refuted": [],
-    "partial": [],
+    "partial": [
+        "C13_full is proved for the model of C02 (same distance to the code: main files, sub-package files, link boundary, symbol table are modelled and tied by whole-descriptor correspondence; entities, rules, options, descriptions are outside the model). Hypothesis seq_ok: every edit addresses a source file and leaves the bundle valid; `valid` is tied to acceptance by the real compiler on both sides of every generated pair. Outside the edit language: an option appended to an enum without options",
+    ],
 }
 
 MANIFEST = {
